@@ -21,7 +21,7 @@ func init() {
 	})
 }
 
-var c11Kinds = []string{"bool", "same", "unsafe", "reuse-bool", "reuse-same"}
+var c11Kinds = []string{"bool", "same", "unsafe", "reuse-bool", "reuse-same", "reuseB-same", "reuse-unfit"}
 
 func c11Types(op string) []reflect.Type {
 	if op == "ElEq" || op == "ElNe" {
@@ -65,10 +65,13 @@ func c11OpType(c *core.Ctx, op string, t reflect.Type) {
 				continue
 			}
 			dests := []string{""}
-			if kind == "reuse-bool" || kind == "reuse-same" {
+			if kind == "reuse-bool" || kind == "reuse-same" || kind == "reuse-unfit" {
 				dests = []string{gen.LC}
 			}
 			for _, form := range []string{"TT", "TS", "ST", "TSt", "StT"} {
+				if kind == "reuseB-same" && form != "TT" {
+					continue
+				}
 				for _, api := range []string{"func", "method"} {
 					if api == "method" && (form == "TSt" || form == "StT") {
 						continue
